@@ -59,7 +59,7 @@ pub fn staged_round(tx: &tir::Tx, fee: u64, compiler: &mut tx3_cardano::Compiler
 
 pub fn check_case(tape: &[u16], rc: &mut RCase) -> Result<(), Failure> {
     let mut t = Tape::new(tape);
-    let opts = ROpts { max_inputs: 4, tight_store: true, allow_min_utxo: false, ..ROpts::default() };
+    let opts = ROpts { max_inputs: 4, tight_store: true, allow_min_utxo: false, allow_reference_blocks: true, ..ROpts::default() };
     let mut sc: Scenario = rgen::generate(&mut t, &opts);
     // make the queries overlap: same party for most blocks, nested thresholds, equal refs
     for i in 1..sc.ins.len() {
